@@ -19,9 +19,9 @@ def campaigns(tier, seed):
     """(name, driver args) per tier."""
     if tier == "quick":
         return [("random", "random %d 2500" % seed), ("big", "random %d 60 big" % (seed + 1)), ("small", "small 2 %d 3" % seed),
-                ("fans", "fans %d 2500" % (seed + 2)), ("sizes", "sizes %d" % seed), ("handles", "random %d 1500 handles" % (seed + 5))]
+                ("fans", "fans %d 2500" % (seed + 2)), ("sizes", "sizes %d" % seed), ("handles", "random %d 1500 handles" % (seed + 5)), ("tables", "tables %d" % seed)]
     return [("random", "random %d 60000" % seed), ("big", "random %d 1500 big" % (seed + 1)), ("small", "small 3 %d 41" % seed),
-            ("fans", "fans %d 80000" % (seed + 2)), ("sizes", "sizes %d" % seed), ("handles", "random %d 40000 handles" % (seed + 5))]
+            ("fans", "fans %d 80000" % (seed + 2)), ("sizes", "sizes %d" % seed), ("handles", "random %d 40000 handles" % (seed + 5)), ("tables", "tables %d" % seed)]
 
 
 def run_campaign(v, exe, name, args, wd):
